@@ -939,6 +939,18 @@ func (s *Sim) PredBlockedIn(name, sub string) bool {
 	return false
 }
 
+// PredLiveCount is for use inside a WaitUntil predicate: the number of live goroutines spawned
+// by kit code whose name contains filter.
+func (s *Sim) PredLiveCount(filter string) int {
+	n := 0
+	for _, g := range s.all {
+		if !g.Client && g.state != gDone && strings.Contains(g.Name, filter) {
+			n++
+		}
+	}
+	return n
+}
+
 // Dump renders the wait-for picture: every live goroutine, where it is, and lock holders.
 func (s *Sim) Dump() string {
 	s.mu.Lock()
